@@ -579,3 +579,295 @@ theorem decodeDatetimeBase_time (g : Grammar) (hg : TimeTablesOK g = true) (h mi
     simp [firstSome, e1, e2, e3, defaultTz]
 
 end Pvl
+
+namespace Pvl
+open Py Enc
+
+/-! ### the `Z` spellings: formats that must *fail* before the right one is tried -/
+
+theorem matchAlts_nil (f : Field) (r : List Item) (s : Str) : matchAlts f [] r s = none := by
+  rw [matchAlts]
+
+theorem matchAlts_cont_none (f : Field) (a : Alt) (as : List Alt) (r : List Item) (s m rest : Str)
+    (h1 : matchCCs a s = some (m, rest)) (h2 : matchItems r rest = none) :
+    matchAlts f (a :: as) r s = matchAlts f as r s := by
+  rw [matchAlts]; simp [h1, h2]
+
+/-- a literal that meets a different character (or the end of the text) -/
+theorem lit_fail (ch c : Nat) (hne : lowerAscii1 c ≠ lowerAscii1 ch) (r : List Item) (rest : Str) :
+    matchItems (⟨.none, [[.lit ch]]⟩ :: r) (c :: rest) = none := by
+  rw [matchItems_cons]
+  rw [matchAlts_skip _ _ _ _ _ (by simp [matchCCs, CC.ok, hne])]
+  exact matchAlts_nil _ _ _
+
+theorem lit_fail_nil (ch : Nat) (r : List Item) : matchItems (⟨.none, [[.lit ch]]⟩ :: r) [] = none := by
+  rw [matchItems_cons, matchAlts_skip _ _ _ _ _ (by simp [matchCCs])]
+  exact matchAlts_nil _ _ _
+
+theorem lit_cont_none (ch : Nat) (hc : lowerAscii1 ch = ch) (r : List Item) (rest : Str)
+    (hk : matchItems r rest = none) : matchItems (⟨.none, [[.lit ch]]⟩ :: r) (ch :: rest) = none := by
+  rw [matchItems_cons]
+  rw [matchAlts_cont_none _ _ _ _ _ [ch] rest (by simp [matchCCs, CC.ok]) hk]
+  exact matchAlts_nil _ _ _
+
+/-- `%H` fails when what follows fails after both ways of splitting the two digits -/
+theorem H_field_none (h : Nat) (hh : h < 24) (r : List Item) (rest : Str)
+    (h2 : matchItems r rest = none) (h1 : matchItems r ((48 + h % 10) :: rest) = none) :
+    matchItems (itemH :: r) (pad h 2 ++ rest) = none := by
+  rw [matchItems_cons, pad2 h (by omega)]
+  have hd := isDecimal_digit (h % 10) (Nat.mod_lt _ (by omega))
+  have hd1 := isDecimal_digit (h / 10) (by omega)
+  unfold itemH
+  by_cases ha : 20 ≤ h
+  · have e1 : h / 10 = 2 := by omega
+    have e2 : h % 10 ≤ 3 := by omega
+    rw [matchAlts_cont_none _ _ _ _ _ [48 + h / 10, 48 + h % 10] rest (by simp [matchCCs, dg, ccr, e1]; omega) h2]
+    rw [matchAlts_skip _ _ _ _ _ (by simp [matchCCs, dg, ccr, e1])]
+    rw [matchAlts_cont_none _ _ _ _ _ [48 + h / 10] ((48 + h % 10) :: rest) (by simp [matchCCs, CC.ok, hd1]) h1]
+    exact matchAlts_nil _ _ _
+  · have e1 : h / 10 = 0 ∨ h / 10 = 1 := by omega
+    rw [matchAlts_skip _ _ _ _ _ (by rcases e1 with e1 | e1 <;> simp [matchCCs, dg, ccr, e1])]
+    rw [matchAlts_cont_none _ _ _ _ _ [48 + h / 10, 48 + h % 10] rest
+      (by rcases e1 with e1 | e1 <;> simp [matchCCs, dg, ccr, e1, CC.ok, hd]) h2]
+    rw [matchAlts_cont_none _ _ _ _ _ [48 + h / 10] ((48 + h % 10) :: rest) (by simp [matchCCs, CC.ok, hd1]) h1]
+    exact matchAlts_nil _ _ _
+
+theorem M_field_none (m : Nat) (hm : m < 60) (r : List Item) (rest : Str)
+    (h2 : matchItems r rest = none) (h1 : matchItems r ((48 + m % 10) :: rest) = none) :
+    matchItems (itemM :: r) (pad m 2 ++ rest) = none := by
+  rw [matchItems_cons, pad2 m (by omega)]
+  have hd := isDecimal_digit (m % 10) (Nat.mod_lt _ (by omega))
+  have hd1 := isDecimal_digit (m / 10) (by omega)
+  have e1 : m / 10 ≤ 5 := by omega
+  unfold itemM
+  rw [matchAlts_cont_none _ _ _ _ _ [48 + m / 10, 48 + m % 10] rest (by simp [matchCCs, dg, ccr, CC.ok, hd]; omega) h2]
+  rw [matchAlts_cont_none _ _ _ _ _ [48 + m / 10] ((48 + m % 10) :: rest) (by simp [matchCCs, CC.ok, hd1]) h1]
+  exact matchAlts_nil _ _ _
+
+theorem S_field_none (s : Nat) (hs : s < 60) (r : List Item) (rest : Str)
+    (h2 : matchItems r rest = none) (h1 : matchItems r ((48 + s % 10) :: rest) = none) :
+    matchItems (itemS :: r) (pad s 2 ++ rest) = none := by
+  rw [matchItems_cons, pad2 s (by omega)]
+  have hd := isDecimal_digit (s % 10) (Nat.mod_lt _ (by omega))
+  have hd1 := isDecimal_digit (s / 10) (by omega)
+  have e1 : s / 10 ≤ 5 := by omega
+  unfold itemS
+  rw [matchAlts_skip _ _ _ _ _ (by simp [matchCCs, dg, ccr]; omega)]
+  rw [matchAlts_cont_none _ _ _ _ _ [48 + s / 10, 48 + s % 10] rest (by simp [matchCCs, dg, ccr, CC.ok, hd]; omega) h2]
+  rw [matchAlts_cont_none _ _ _ _ _ [48 + s / 10] ((48 + s % 10) :: rest) (by simp [matchCCs, CC.ok, hd1]) h1]
+  exact matchAlts_nil _ _ _
+
+/-- a digit is not `:`, `.`, `Z` -/
+theorem digit_ne_lit (k : Nat) (hk : k < 10) (ch : Nat) (hch : ch = 58 ∨ ch = 46 ∨ ch = 90) :
+    lowerAscii1 (48 + k) ≠ lowerAscii1 ch := by
+  have : lowerAscii1 (48 + k) = 48 + k := by simp [lowerAscii1]; omega
+  rw [this]
+  rcases hch with rfl | rfl | rfl <;> simp [lowerAscii1] <;> omega
+
+end Pvl
+
+namespace Pvl
+open Py Enc
+
+def litZ : Item := ⟨.none, [[.lit 90]]⟩
+def fmtHMZ : Str := fmtHM ++ [90]
+def fmtHMSZ : Str := fmtHMS ++ [90]
+def fmtHMSfZ : Str := fmtHMSf ++ [90]
+
+theorem compile_HMZ : compileFmt fmtHMZ = some [itemH, litColon, itemM, litZ] := by
+  simp [fmtHMZ, fmtHM, compileFmt, litColon, litZ]
+theorem compile_HMSZ : compileFmt fmtHMSZ = some [itemH, litColon, itemM, litColon, itemS, litZ] := by
+  simp [fmtHMSZ, fmtHMS, compileFmt, litColon, litZ]
+theorem compile_HMSfZ :
+    compileFmt fmtHMSfZ = some [itemH, litColon, itemM, litColon, itemS, litDot, itemf, litZ] := by
+  simp [fmtHMSfZ, fmtHMSf, compileFmt, litColon, litDot, litZ]
+
+/-- `HH:MM` followed by a character other than the literal the format wants next -/
+theorem HM_then_lit_fail (h mi : Nat) (hh : h < 24) (hm : mi < 60) (ch : Nat)
+    (hch : ∀ k, k < 10 → lowerAscii1 (48 + k) ≠ lowerAscii1 ch) (r : List Item) (c : Nat) (rest : Str)
+    (hc : lowerAscii1 c ≠ lowerAscii1 ch) :
+    matchItems (itemH :: litColon :: itemM :: ⟨.none, [[.lit ch]]⟩ :: r) (pad h 2 ++ 58 :: (pad mi 2 ++ c :: rest)) =
+      none := by
+  apply H_field_none h hh
+  · exact lit_cont_none 58 (by decide) _ _
+      (M_field_none mi hm _ _ (lit_fail ch c hc r rest)
+        (lit_fail ch _ (hch _ (Nat.mod_lt _ (by omega))) r (c :: rest)))
+  · exact lit_fail 58 _ (digit_ne_lit _ (Nat.mod_lt _ (by omega)) 58 (Or.inl rfl)) _ _
+
+/-- `HH:MM:SS` followed by a character other than the literal the format wants next -/
+theorem HMS_then_lit_fail (h mi s : Nat) (hh : h < 24) (hm : mi < 60) (hs : s < 60) (ch : Nat)
+    (hch : ∀ k, k < 10 → lowerAscii1 (48 + k) ≠ lowerAscii1 ch) (r : List Item) (c : Nat) (rest : Str)
+    (hc : lowerAscii1 c ≠ lowerAscii1 ch) :
+    matchItems (itemH :: litColon :: itemM :: litColon :: itemS :: ⟨.none, [[.lit ch]]⟩ :: r)
+      (pad h 2 ++ 58 :: (pad mi 2 ++ 58 :: (pad s 2 ++ c :: rest))) = none := by
+  have d58 : ∀ k, k < 10 → lowerAscii1 (48 + k) ≠ lowerAscii1 58 :=
+    fun k hk => digit_ne_lit k hk 58 (Or.inl rfl)
+  apply H_field_none h hh
+  · apply lit_cont_none 58 (by decide)
+    apply M_field_none mi hm
+    · apply lit_cont_none 58 (by decide)
+      exact S_field_none s hs _ _ (lit_fail ch c hc r rest)
+        (lit_fail ch _ (hch _ (Nat.mod_lt _ (by omega))) r (c :: rest))
+    · exact lit_fail 58 _ (d58 _ (Nat.mod_lt _ (by omega))) _ _
+  · exact lit_fail 58 _ (d58 _ (Nat.mod_lt _ (by omega))) _ _
+
+theorem dZ : ∀ k, k < 10 → lowerAscii1 (48 + k) ≠ lowerAscii1 90 := fun k hk => digit_ne_lit k hk 90 (Or.inr (Or.inr rfl))
+theorem d58 : ∀ k, k < 10 → lowerAscii1 (48 + k) ≠ lowerAscii1 58 := fun k hk => digit_ne_lit k hk 58 (Or.inl rfl)
+theorem d46 : ∀ k, k < 10 → lowerAscii1 (48 + k) ≠ lowerAscii1 46 := fun k hk => digit_ne_lit k hk 46 (Or.inr (Or.inl rfl))
+
+theorem Z_field (r : List Item) (rest fin : Str) (caps : List (Field × Str))
+    (hk : matchItems r rest = some (caps, fin)) :
+    matchItems (litZ :: r) (90 :: rest) = some ((.none, [90]) :: caps, fin) := by
+  unfold litZ
+  rw [matchItems_cons]
+  exact matchAlts_first _ _ _ _ _ [90] rest fin caps (by simp [matchCCs, CC.ok]) hk
+
+/-! #### the six formats on `HH:MMZ` -/
+
+theorem strptime_fail_of_match_none (text fmt : Str) (items : List Item) (hc : compileFmt fmt = some items)
+    (hm : matchItems items text = none) : strptime text fmt = none := by
+  unfold strptime; rw [hc]; simp [hm]
+
+theorem strptime_HMZ (h mi : Nat) (hh : h < 24) (hm : mi < 60) :
+    strptime (pad h 2 ++ 58 :: (pad mi 2 ++ [90])) fmtHMZ = some ⟨1900, 1, 1, h, mi, 0, 0⟩ := by
+  unfold strptime
+  rw [compile_HMZ]
+  have : matchItems [itemH, litColon, itemM, litZ] (pad h 2 ++ 58 :: (pad mi 2 ++ [90])) =
+      some ([(.H, pad h 2), (.none, [58]), (.M, pad mi 2), (.none, [90])], []) :=
+    H_field h hh _ _ _ _ (colon_field _ _ _ _ (M_field mi hm _ _ _ _ (Z_field _ _ _ _ (matchItems_nil []))))
+  simp only [this]
+  simp [field?, List.find?, field_beq, natOf_pad, daysInMonth]
+
+theorem strptime_HMSZ (h mi s : Nat) (hh : h < 24) (hm : mi < 60) (hs : s < 60) :
+    strptime (pad h 2 ++ 58 :: (pad mi 2 ++ 58 :: (pad s 2 ++ [90]))) fmtHMSZ = some ⟨1900, 1, 1, h, mi, s, 0⟩ := by
+  unfold strptime
+  rw [compile_HMSZ]
+  have : matchItems [itemH, litColon, itemM, litColon, itemS, litZ]
+      (pad h 2 ++ 58 :: (pad mi 2 ++ 58 :: (pad s 2 ++ [90]))) =
+      some ([(.H, pad h 2), (.none, [58]), (.M, pad mi 2), (.none, [58]), (.S, pad s 2), (.none, [90])], []) :=
+    H_field h hh _ _ _ _ (colon_field _ _ _ _ (M_field mi hm _ _ _ _ (colon_field _ _ _ _
+      (S_field s hs _ _ _ _ (Z_field _ _ _ _ (matchItems_nil []))))))
+  simp only [this]
+  have e : ¬ s > 59 := by omega
+  simp [field?, List.find?, field_beq, natOf_pad, daysInMonth, e]
+
+theorem strptime_HMSfZ (h mi s us : Nat) (hh : h < 24) (hm : mi < 60) (hs : s < 60) (hus : us < 1000000) :
+    strptime (pad h 2 ++ 58 :: (pad mi 2 ++ 58 :: (pad s 2 ++ 46 :: (pad us 6 ++ [90])))) fmtHMSfZ =
+      some ⟨1900, 1, 1, h, mi, s, us⟩ := by
+  unfold strptime
+  rw [compile_HMSfZ]
+  have : matchItems [itemH, litColon, itemM, litColon, itemS, litDot, itemf, litZ]
+      (pad h 2 ++ 58 :: (pad mi 2 ++ 58 :: (pad s 2 ++ 46 :: (pad us 6 ++ [90])))) =
+      some ([(.H, pad h 2), (.none, [58]), (.M, pad mi 2), (.none, [58]), (.S, pad s 2), (.none, [46]),
+        (.f, pad us 6), (.none, [90])], []) :=
+    H_field h hh _ _ _ _ (colon_field _ _ _ _ (M_field mi hm _ _ _ _ (colon_field _ _ _ _
+      (S_field s hs _ _ _ _ (dot_field _ _ _ _ (f_field us hus _ _ _ _ (Z_field _ _ _ _ (matchItems_nil []))))))))
+  simp only [this]
+  have e : ¬ s > 59 := by omega
+  have hl := length_pad us 6 (by omega) (by omega)
+  simp [field?, List.find?, field_beq, natOf_pad, daysInMonth, e, hl]
+
+theorem strptime_HMSf_more (h mi s us : Nat) (hh : h < 24) (hm : mi < 60) (hs : s < 60) (hus : us < 1000000)
+    (c : Nat) (rest : Str) :
+    strptime (pad h 2 ++ 58 :: (pad mi 2 ++ 58 :: (pad s 2 ++ 46 :: (pad us 6 ++ c :: rest)))) fmtHMSf = none := by
+  unfold strptime
+  rw [compile_HMSf]
+  have : matchItems [itemH, litColon, itemM, litColon, itemS, litDot, itemf]
+      (pad h 2 ++ 58 :: (pad mi 2 ++ 58 :: (pad s 2 ++ 46 :: (pad us 6 ++ c :: rest)))) =
+      some ([(.H, pad h 2), (.none, [58]), (.M, pad mi 2), (.none, [58]), (.S, pad s 2), (.none, [46]),
+        (.f, pad us 6)], c :: rest) :=
+    H_field h hh _ _ _ _ (colon_field _ _ _ _ (M_field mi hm _ _ _ _ (colon_field _ _ _ _
+      (S_field s hs _ _ _ _ (dot_field _ _ _ _ (f_field us hus _ _ _ _ (matchItems_nil (c :: rest))))))))
+  simp [this]
+
+end Pvl
+
+namespace Pvl
+open Py Enc
+
+/-- the six time formats in the order every generated table lists them -/
+def TimeTablesOK6 (g : Grammar) : Bool :=
+  g.dateFormats.all (fun f => f.take 2 == [37, 89]) &&
+  g.timeFormats.take 6 == [fmtHM, fmtHMS, fmtHMSf, fmtHMZ, fmtHMSZ, fmtHMSfZ]
+
+theorem endsWith_snoc (s : Str) (c : Nat) : endsWith (s ++ [c]) [c] = true := by
+  simp [endsWith, startsWith]
+
+theorem firstSome_cons_none {α β} (f : α → Option β) (a : α) (l : List α) (h : f a = none) :
+    firstSome f (a :: l) = firstSome f l := by simp [firstSome, h]
+
+theorem firstSome_cons_some {α β} (f : α → Option β) (a : α) (l : List α) (b : β) (h : f a = some b) :
+    firstSome f (a :: l) = some b := by simp [firstSome, h]
+
+/-- **`decode_datetime` reads `HH:MM[:SS[.ffffff]]Z` as that time in UTC** -/
+theorem decodeDatetimeBase_timeZ (g : Grammar) (hg : TimeTablesOK6 g = true) (h mi s us : Nat)
+    (hv : ValidTime h mi s us) :
+    decodeDatetimeBase g (encodeTimeBase h mi s us ++ [90]) = some (.time h mi s us (some 0)) := by
+  obtain ⟨hh, hm, hs, hus⟩ := hv
+  simp only [TimeTablesOK6, Bool.and_eq_true, beq_iff_eq] at hg
+  have htf : ∃ r, g.timeFormats = fmtHM :: fmtHMS :: fmtHMSf :: fmtHMZ :: fmtHMSZ :: fmtHMSfZ :: r := by
+    have h6 := hg.2
+    match hl : g.timeFormats, h6 with
+    | a :: b :: c :: d :: e :: f :: r, h6 =>
+      simp at h6
+      obtain ⟨rfl, rfl, rfl, rfl, rfl, rfl⟩ := h6
+      exact ⟨r, rfl⟩
+    | [], h6 => simp at h6
+    | [_], h6 => simp at h6
+    | [_, _], h6 => simp at h6
+    | [_, _, _], h6 => simp at h6
+    | [_, _, _, _], h6 => simp at h6
+    | [_, _, _, _, _], h6 => simp at h6
+  obtain ⟨r, htf⟩ := htf
+  unfold decodeDatetimeBase
+  have hdates : firstSome (strptime (encodeTimeBase h mi s us ++ [90])) g.dateFormats = none := by
+    rw [encodeTimeBase_eq, pad2_cons h (by omega)]
+    apply firstSome_none
+    intro f hf
+    have h2 := (List.all_eq_true.mp hg.1) f hf
+    match f, h2 with
+    | 37 :: 89 :: f', _ => exact strptime_Y_fails _ _ _ f'
+    | [], h2 => simp at h2
+    | [_], h2 => simp at h2
+    | a :: b :: f', h2 =>
+      simp at h2
+      obtain ⟨rfl, rfl⟩ := h2
+      exact strptime_Y_fails _ _ _ f'
+  rw [hdates]
+  simp only [endsWith_snoc, if_true]
+  rw [htf, encodeTimeBase_eq]
+  unfold timeTail
+  by_cases h1 : us = 0
+  · by_cases h2 : s = 0
+    · subst h1 h2
+      simp only [bne_self_eq_false, Bool.false_eq_true, if_false, List.append_nil, List.append_assoc,
+        List.cons_append]
+      rw [firstSome_cons_none _ _ _ (strptime_HM_more h mi hh hm 90 [])]
+      rw [firstSome_cons_none _ _ _ (strptime_fail_of_match_none _ _ _ compile_HMS
+        (HM_then_lit_fail h mi hh hm 58 d58 [itemS] 90 [] (by decide)))]
+      rw [firstSome_cons_none _ _ _ (strptime_fail_of_match_none _ _ _ compile_HMSf
+        (HM_then_lit_fail h mi hh hm 58 d58 [itemS, litDot, itemf] 90 [] (by decide)))]
+      rw [firstSome_cons_some _ _ _ _ (strptime_HMZ h mi hh hm)]
+    · subst h1
+      have hsne : (s != 0) = true := by simp [h2]
+      simp only [bne_self_eq_false, Bool.false_eq_true, if_false, hsne, if_true, List.append_assoc,
+        List.cons_append]
+      rw [firstSome_cons_none _ _ _ (strptime_HM_more h mi hh hm 58 (pad s 2 ++ [90]))]
+      rw [firstSome_cons_none _ _ _ (strptime_HMS_more h mi s hh hm hs 90 [])]
+      rw [firstSome_cons_none _ _ _ (strptime_fail_of_match_none _ _ _ compile_HMSf
+        (HMS_then_lit_fail h mi s hh hm hs 46 d46 [itemf] 90 [] (by decide)))]
+      rw [firstSome_cons_none _ _ _ (strptime_fail_of_match_none _ _ _ compile_HMZ
+        (HM_then_lit_fail h mi hh hm 90 dZ [] 58 (pad s 2 ++ [90]) (by decide)))]
+      rw [firstSome_cons_some _ _ _ _ (strptime_HMSZ h mi s hh hm hs)]
+  · have hune : (us != 0) = true := by simp [h1]
+    simp only [hune, if_true, List.append_assoc, List.cons_append]
+    rw [firstSome_cons_none _ _ _ (strptime_HM_more h mi hh hm 58 (pad s 2 ++ 46 :: (pad us 6 ++ [90])))]
+    rw [firstSome_cons_none _ _ _ (strptime_HMS_more h mi s hh hm hs 46 (pad us 6 ++ [90]))]
+    rw [firstSome_cons_none _ _ _ (strptime_HMSf_more h mi s us hh hm hs hus 90 [])]
+    rw [firstSome_cons_none _ _ _ (strptime_fail_of_match_none _ _ _ compile_HMZ
+      (HM_then_lit_fail h mi hh hm 90 dZ [] 58 (pad s 2 ++ 46 :: (pad us 6 ++ [90])) (by decide)))]
+    rw [firstSome_cons_none _ _ _ (strptime_fail_of_match_none _ _ _ compile_HMSZ
+      (HMS_then_lit_fail h mi s hh hm hs 90 dZ [] 46 (pad us 6 ++ [90]) (by decide)))]
+    rw [firstSome_cons_some _ _ _ _ (strptime_HMSfZ h mi s us hh hm hs hus)]
+
+end Pvl
